@@ -111,14 +111,14 @@ func TestC12(t *testing.T) {
 	r.Assume("values are self-describing (name|serial|random|crc32) so a torn, foreign or never-served value is recognised on every read",
 		"the scripted service only moves forward, so install order = serial order",
 		"'never waits for a request' is decided while a request is parked by construction: the probe must finish; if it does not, three stack samples showing the prober on the store mutex are the witness, anything else is inconclusive")
-	reps := r.N(30, 600)
+	reps := r.N(120, 1500)
 	for rep := 0; rep < reps; rep++ {
 		if r.Skip(rep) {
 			continue
 		}
 		stressRep(t, r, rep)
 	}
-	probes := r.N(60, 1200)
+	probes := r.N(300, 3000)
 	for p := 0; p < probes; p++ {
 		if r.Skip(reps + p) {
 			continue
